@@ -31,6 +31,7 @@ from ..mutate import mutate, remove_stmts, replace_expr, replace_stmt, parse_stm
 from ..model import AnalysisError
 from ..x_sint import check_sint
 from ..x_paths import path_states, satisfied
+from ..x_resolve import normalise, expand, resolve, unique_def, callee, arg_map, in_annotation
 
 TECHNIQUE = "exception-escape lint against a frozen raise table + SINT + provenance table of the environ dict literal + guard dominance of the default-header insertions"
 EXPLANATION = (
@@ -70,6 +71,8 @@ def rule_total(ck, fi):
         if isinstance(x, ast.Try):
             raise AnalysisError("C47: try statement in environ (unknown idiom)")
     for nd, x in fi.cfg.find(lambda x: isinstance(x, (ast.Call, ast.Subscript, ast.Assign))):
+        if in_annotation(pm, x):
+            continue
         F = facts[nd.id]
         if isinstance(x, ast.Assign):
             t = x.targets[0]
@@ -118,7 +121,9 @@ def rule_total(ck, fi):
             continue
         if name == "to_wsgi_str":
             # asserts isinstance(s, bytes): the argument must be url_unescape(.., encoding=None) / utf8(..) / a bytes literal
-            a = c.args[0] if c.args else None
+            a = resolve(fi, c.args[0]) if c.args else None
+            if not isinstance(a, ast.Call):
+                raise AnalysisError("C47.environ-total: argument of to_wsgi_str is not a recognisable call (%s)" % (q.unparse(a) if a is not None else "?"))
             ok = isinstance(a, ast.Call) and ((q.call_attr(a) == "url_unescape" and q.kwarg(a, "encoding") is not None and q.is_const(q.kwarg(a, "encoding"), None)) or q.call_attr(a) == "utf8")
             n += 1
             ck.ob("C47.environ-total", fi, c, ok, "to_wsgi_str() asserts a bytes argument: it is fed url_unescape(.., encoding=None) (bytes) or utf8(..)")
@@ -160,7 +165,7 @@ def _binding(fi, name):
 
 
 def _env_dict(fi):
-    ds = [a for a in q.walk_body(fi.node) if isinstance(a, ast.Assign) and isinstance(a.value, ast.Dict) and len(a.value.keys) >= 8 and isinstance(a.targets[0], ast.Name)]
+    ds = [a for a in q.walk_body(fi.node) if isinstance(a, ast.Assign) and isinstance(a.value, ast.Dict) and len(a.value.keys) >= 4 and isinstance(a.targets[0], ast.Name)]
     if len(ds) != 1:
         raise AnalysisError("C47: environ dict literal not found (unknown idiom)")
     a = ds[0]
@@ -169,7 +174,14 @@ def _env_dict(fi):
         if not (isinstance(k, ast.Constant) and isinstance(k.value, str)):
             raise AnalysisError("C47: non-literal key in the environ dict")
         table[k.value] = v
-    return a, a.targets[0].id, table
+    # keys added right after the literal by constant-key stores (outside loops/conditions) belong to the table too
+    envname = a.targets[0].id
+    for st in fi.node.body:
+        if isinstance(st, ast.Assign) and len(st.targets) == 1 and isinstance(st.targets[0], ast.Subscript) and q.dotted(st.targets[0].value) == envname:
+            k = st.targets[0].slice
+            if isinstance(k, ast.Constant) and isinstance(k.value, str) and k.value not in table:
+                table[k.value] = st.value
+    return a, envname, table
 
 
 def rule_keys(ck, fi):
@@ -201,8 +213,11 @@ def rule_keys(ck, fi):
     prov("wsgi.run_once", lambda v: q.is_const(v, False), "is False (long-running server)")
 
     def path_ok(v):
+        v = expand(fi, v)
         calls = [c for c in ast.walk(v) if isinstance(c, ast.Call) and q.call_attr(c) == "url_unescape"]
         if len(calls) != 1:
+            if req + ".path" in q.paths_in(v) and any(isinstance(c, ast.Call) and q.call_attr(c) not in ("to_wsgi_str",) for c in ast.walk(v)):
+                raise AnalysisError("C47.cgi-keys: PATH_INFO is decoded in an unrecognised way: %s" % q.unparse(v))
             return False
         c = calls[0]
         plus = q.kwarg(c, "plus")
@@ -235,12 +250,28 @@ def rule_keys(ck, fi):
             for nd in fi.cfg.nodes_for(v):
                 n += 1
                 ck.ob("C47.host-port", fi, v, satisfied(st, nd, [("fact", "%s is None" % portv, False), ("event", "dflt")]) is True, "a missing port is replaced by the protocol default before SERVER_PORT is rendered (never 'None')")
-            # the default depends on the protocol
-            dflts = [a for a in q.walk_body(fi.node) if isinstance(a, ast.Assign) and portv in q.assigned_paths(a) and a not in split]
-            for a in dflts:
-                ints = set(q.literal_ints(a.value))
-                n += 1
-                ck.ob("C47.host-port", fi, a, {80, 443} <= ints and any(q.dotted(x) == req + ".protocol" for x in ast.walk(a.value)) and "https" in q.literal_strs(a.value), "the default port is 443 for https and 80 otherwise")
+            # the default depends on the protocol: evaluate the statements between the split and the dict for every case
+            from ..x_eval import Evaluator
+            body = fi.node.body
+            i0 = [i for i, st in enumerate(body) if st is split[0]] if split else []
+            i1 = [i for i, st in enumerate(body) if st is asg]
+            if len(i0) != 1 or len(i1) != 1 or i0[0] >= i1[0]:
+                raise AnalysisError("C47.host-port: the statements between the host/port split and the environ dict are not at the top level (unknown idiom)")
+            region = body[i0[0] + 1:i1[0]]
+            bad = None
+            for proto, given, want in (("https", None, 443), ("http", None, 80), ("https", 8443, 8443), ("http", 0, 0), ("http", 8080, 8080)):
+                from ..x_eval import Opaque
+                ev = Evaluator(call=lambda name, args, kwargs, node, ev2: Opaque(name), consts=lambda nm: fi.module.assigns.get(nm))
+                env = {portv: given, hostv or "_host": "h", req + ".protocol": proto, req + ".path": "/p", req + ".host": "h"}
+                kind, val = ev.run(region, env)
+                if kind != "fall":
+                    bad = bad or "protocol=%s port=%r: environ %ss %r before the dict is built" % (proto, given, kind, val)
+                elif isinstance(env.get(portv), Opaque):
+                    raise AnalysisError("C47.host-port: the port is computed by %r, which is not modelled" % env.get(portv))
+                elif env.get(portv) != want:
+                    bad = bad or "protocol=%s, Host port %r -> SERVER_PORT %r (expected %r)" % (proto, given, env.get(portv), want)
+            n += 1
+            ck.ob("C47.host-port", fi, v, bad is None, "an explicit port is kept; a missing one becomes 443 for https and 80 otherwise (evaluated for https/http x port None/0/8080/8443)%s" % ("" if bad is None else " — " + bad), construct="port default by protocol")
     return n
 
 
@@ -252,12 +283,18 @@ def rule_headers(ck, fi):
     facts = must_facts(fi.cfg)
     # CONTENT_TYPE / CONTENT_LENGTH
     stores = {}
+    dynamic = 0
     for nd, s in fi.cfg.find(lambda x: isinstance(x, ast.Subscript) and isinstance(x.ctx, ast.Store) and q.dotted(x.value) == envname):
-        stores.setdefault(q.unparse(s.slice), []).append((nd, s))
+        ke = expand(fi, s.slice)
+        if not isinstance(ke, ast.Constant):
+            dynamic += 1
+        stores.setdefault(q.unparse(ke), []).append((nd, s))
     pm = q.parent_map(fi.node)
     for key, hname in (("CONTENT_TYPE", "Content-Type"), ("CONTENT_LENGTH", "Content-Length")):
         got = stores.get(repr(key), [])
         n += 1
+        if not got and dynamic > 1:
+            raise AnalysisError("C47.headers: environ is written under computed keys; cannot tell whether %s is set" % key)
         ck.ob("C47.headers", fi, fi.node, len(got) >= 1, "environ[%r] is set from the %s header" % (key, hname), construct="environ[%r] store" % key)
         for nd, s in got:
             a = pm.get(s)
@@ -274,7 +311,7 @@ def rule_headers(ck, fi):
         sts = [s for s in l.body if isinstance(s, ast.Assign) and isinstance(s.targets[0], ast.Subscript) and q.dotted(s.targets[0].value) == envname]
         ck.floor("C47.headers", len(sts), 1, "environ stores in the header loop")
         for s in sts:
-            ke = s.targets[0].slice
+            ke = expand(fi, s.targets[0].slice)
             ok_prefix = isinstance(ke, ast.BinOp) and isinstance(ke.op, ast.Add) and q.is_const(ke.left, "HTTP_")
             meths = [c.func.attr for c in ast.walk(ke) if isinstance(c, ast.Call) and isinstance(c.func, ast.Attribute)]
             repl = [c for c in ast.walk(ke) if isinstance(c, ast.Call) and isinstance(c.func, ast.Attribute) and c.func.attr == "replace" and [getattr(a, "value", None) for a in c.args] == ["-", "_"]]
@@ -282,7 +319,7 @@ def rule_headers(ck, fi):
             ck.ob("C47.headers", fi, s, ok_prefix, "other headers are exported under the HTTP_ prefix")
             ck.ob("C47.headers", fi, s, bool(repl), "'-' in the header name becomes '_'")
             ck.ob("C47.headers", fi, s, "upper" in meths and kname in q.names_in(ke), "the header name is upper-cased")
-            ck.ob("C47.headers", fi, s, q.dotted(s.value) == vname, "the header value is passed unchanged")
+            ck.ob("C47.headers", fi, s, q.dotted(expand(fi, s.value)) == vname, "the header value is passed unchanged")
     return n
 
 
@@ -290,36 +327,70 @@ def rule_response(ck):
     fi = ck.func(W, HR)
     facts = must_facts(fi.cfg)
     n = 0
-    # the lower-cased set of application header names
-    sets = [a for a in q.walk_body(fi.node) if isinstance(a, ast.Assign) and isinstance(a.value, (ast.SetComp, ast.Call)) and isinstance(a.targets[0], ast.Name) and any(isinstance(c, ast.Call) and q.call_attr(c) == "lower" for c in ast.walk(a.value))]
-    appends = [(nd, c) for nd, c in fi.cfg.find(lambda x: isinstance(x, ast.Call) and q.call_attr(x) == "append" and x.args and isinstance(x.args[0], ast.Tuple) and len(x.args[0].elts) == 2 and isinstance(x.args[0].elts[0], ast.Constant))]
-    ck.floor("C47.response", len(appends), 3, "default header insertions in handle_request")
-    nsets = set()
-    # which names are tested in the guards
-    for nd, c in appends:
+    # default-header insertions: in handle_request itself or in a same-class helper it calls (one level)
+    def is_ins(x):
+        return isinstance(x, ast.Call) and q.call_attr(x) == "append" and isinstance(x.func, ast.Attribute) and x.args and isinstance(x.args[0], ast.Tuple) and len(x.args[0].elts) == 2 and isinstance(x.args[0].elts[0], ast.Constant) and isinstance(x.args[0].elts[0].value, str)
+
+    sites = []   # (function holding the insertion, its cfg node, call, node in handle_request that runs it, name->expr map into handle_request)
+    for nd, c in fi.cfg.find(is_ins):
+        sites.append((fi, nd, c, nd, None))
+    for nd, call in fi.cfg.find(lambda x: isinstance(x, ast.Call)):
+        h = callee(ck.repo, fi, call)
+        if h is None or h.node is fi.node:
+            continue
+        ins = h.cfg.find(is_ins)
+        if ins:
+            mp = arg_map(h, call)
+            if mp is None:
+                raise AnalysisError("C47.response: cannot map the arguments of %s" % q.unparse(call.func))
+            ck.use(h)
+            for nd2, c2 in ins:
+                sites.append((h, nd2, c2, nd, mp))
+    ck.floor("C47.response", len(sites), 3, "default header insertions reachable from handle_request")
+    wchunks = [q.kwarg(w, "chunk") or (w.args[2] if len(w.args) > 2 else None) for w in q.calls(fi.node) if q.call_attr(w) == "write_headers"]
+
+    def to_caller(mp, name):
+        """expression in handle_request that a name of the helper stands for"""
+        if mp is None:
+            return name
+        return q.dotted(mp[name]) if name in mp else None
+
+    appends = []   # (anchor node in handle_request, call) for the ordering rule below
+    applists = set()
+    for sfi, nd, c, anchor, mp in sites:
+        appends.append((anchor, c))
+        recv = q.dotted(c.func.value)
+        applists.add(to_caller(mp, recv) if recv else None)
         hname = c.args[0].elts[0].value
         hl = hname.lower()
-        F = facts[nd.id]
+        F = must_facts(sfi.cfg)[nd.id]
         guard = [t for t, pol in F if not pol and t.startswith(repr(hl) + " in ")]
+        if not guard and any(hl in t.lower() for t, _pol in F):
+            raise AnalysisError("C47.response: the presence test guarding the default %s is not of a recognised form" % hname)
         n += 1
-        ck.ob("C47.response", fi, c, bool(guard), "default %s is added only under a '%s not in <app header names>' test (the application's header is never overridden or duplicated)" % (hname, hl))
+        ck.ob("C47.response", sfi, c, bool(guard), "default %s is added only under a '%s not in <app header names>' test (the application's header is never overridden or duplicated)" % (hname, hl))
         for t in guard:
             sv = t.split(" in ", 1)[1]
-            b = _binding(fi, sv) if sv.isidentifier() else None
-            lowered = isinstance(b, ast.SetComp) and isinstance(b.elt, ast.Call) and q.call_attr(b.elt) == "lower" or (isinstance(b, ast.Call) and q.dotted(b.func) in ("set", "frozenset") and any(isinstance(c2, ast.Call) and q.call_attr(c2) == "lower" for c2 in ast.walk(b)))
+            b = unique_def(sfi, sv) if sv.isidentifier() else None
+            if b is None:
+                raise AnalysisError("C47.response: the set %s tested for %s has no unique definition" % (sv, hname))
+            lowered = isinstance(b, (ast.SetComp, ast.ListComp, ast.GeneratorExp)) and isinstance(b.elt, ast.Call) and q.call_attr(b.elt) == "lower" or (isinstance(b, ast.Call) and q.dotted(b.func) in ("set", "frozenset", "list", "tuple") and any(isinstance(c2, ast.Call) and q.call_attr(c2) == "lower" for c2 in ast.walk(b)))
             n += 1
-            nsets.add(sv)
-            ck.ob("C47.response", fi, c, bool(lowered), "the absence test for %s looks at the lower-cased set of application header names (%s)" % (hname, sv))
+            ck.ob("C47.response", sfi, c, bool(lowered), "the absence test for %s looks at the lower-cased set of application header names (%s)" % (hname, sv))
+            # and that set is built from the list the default is appended to
+            src = [q.dotted(g.iter) for g in getattr(b, "generators", [])] or [q.dotted(x) for x in ast.walk(b) if isinstance(x, ast.Name)]
+            n += 1
+            ck.ob("C47.response", sfi, c, recv in src, "the names tested are those of the list the default is appended to (%s)" % recv)
         if hl == "content-length":
             v = c.args[0].elts[1]
-            bodyv = [q.dotted(x.args[0]) for x in ast.walk(v) if isinstance(x, ast.Call) and q.is_call(x, "len") and x.args]
-            wh = [q.kwarg(w, "chunk") for w in q.calls(fi.node) if q.call_attr(w) == "write_headers"]
+            bodyv = [q.dotted(x.args[0]) for x in ast.walk(expand(sfi, v)) if isinstance(x, ast.Call) and q.is_call(x, "len") and x.args]
+            if len(bodyv) != 1 or bodyv[0] is None:
+                raise AnalysisError("C47.response: default Content-Length value %s not recognised" % q.unparse(v))
             n += 1
-            ck.ob("C47.response", fi, c, len(bodyv) == 1 and any(q.dotted(w) == bodyv[0] for w in wh if w is not None), "the default Content-Length is the length of the body that is actually written")
+            ck.ob("C47.response", sfi, c, any(w is not None and q.dotted(w) == to_caller(mp, bodyv[0]) for w in wchunks), "the default Content-Length is the length of the body that is actually written")
     # multimap-preserving transfer of the application's header list into the HTTPHeaders handed to write_headers
     wh0 = [c for c in q.calls(fi.node) if q.call_attr(c) == "write_headers"]
     ck.floor("C47.response", len(wh0), 1, "write_headers calls")
-    applists = {q.dotted(c.func.value) for _nd, c in appends if isinstance(c.func, ast.Attribute)}
     if len(applists) != 1 or None in applists:
         raise AnalysisError("C47.response: the application's header list (receiver of the default appends) is not a single variable")
     L = applists.pop()
@@ -388,6 +459,42 @@ def rule_response(ck):
     for nd, c in fi.cfg.find(lambda x: isinstance(x, ast.Call) and q.dotted(x.func) == "response.append" and x.args):
         check_exact(ck, "C47.response", fi, c.args[0], [], "application chunk collected for the body", passthrough={"run_in_executor": None, "next": None}, site=c)
         n += 1
+    # end-of-iteration sentinel: distinguishable from every legal chunk (b"" is a legal chunk, PEP 3333)
+    from ..x_optint import check_truthiness
+    helpers = {h.name: h for h in ck.repo.nested(fi)}
+    pulls = []
+    for a in q.walk_body(fi.node):
+        if isinstance(a, ast.Assign) and isinstance(a.targets[0], ast.Name):
+            v = a.value.value if isinstance(a.value, ast.Await) else a.value
+            if isinstance(v, ast.Call) and q.call_attr(v) == "run_in_executor":
+                hs = [x.id for x in v.args if isinstance(x, ast.Name) and x.id in helpers and any(q.is_call(c2, "next") for c2 in q.calls(helpers[x.id].node))]
+                if hs:
+                    pulls.append((a.targets[0].id, helpers[hs[0]]))
+    if not pulls:
+        raise AnalysisError("C47.response: the step that pulls the next chunk from the application iterable was not found (unknown idiom)")
+    for chunkv, h in pulls:
+        ck.use(h)
+        sentinels = []
+        hpm = q.parent_map(h.node)
+        for c2 in q.calls(h.node):
+            if q.is_call(c2, "next"):
+                if len(c2.args) == 2:
+                    sentinels.append(c2.args[1])
+                elif q.protected_by(hpm, c2, "StopIteration") is not None:
+                    hd = q.protected_by(hpm, c2, "StopIteration")
+                    rets = [r for st in hd.body for r in q.walk_local(st) if isinstance(r, ast.Return)]
+                    if not rets:
+                        raise AnalysisError("C47.response: StopIteration handler of %s does not return a sentinel" % h.qualname)
+                    sentinels += [r.value if r.value is not None else ast.Constant(value=None) for r in rets]
+                else:
+                    raise AnalysisError("C47.response: next() in %s has neither a default nor a StopIteration handler" % h.qualname)
+        for sv in sentinels:
+            n += 1
+            ck.ob("C47.response", h, sv, q.is_const(sv, None), "the end-of-iteration sentinel is None, which no application chunk can equal (an empty bytestring is a legal chunk)")
+    nn = check_truthiness(ck, "C47.response", fi, extra={cv for cv, _h in pulls})
+    explicit = [c2 for c2 in ast.walk(fi.node) if isinstance(c2, ast.Compare) and isinstance(c2.left, ast.Name) and c2.left.id in {cv for cv, _h in pulls} and isinstance(c2.ops[0], (ast.Is, ast.IsNot)) and q.is_const(c2.comparators[0], None)]
+    if not explicit and not any(v.rule == "C47.response" and "truthiness" in v.message for v in ck.violations):
+        raise AnalysisError("C47.response: the test that ends the chunk collection was not recognised")
     # status / reason / body plumbing
     wh = [c for c in q.calls(fi.node) if q.call_attr(c) == "write_headers"]
     ck.floor("C47.response", len(wh), 1, "write_headers calls")
@@ -420,7 +527,7 @@ def run(ck):
     ck.rule("C47.cgi-keys", "required CGI/PEP 3333 keys present with the right provenance (PATH_INFO percent-decoded with plus=False)")
     ck.rule("C47.headers", "CONTENT_TYPE/LENGTH from the header map under a presence test; other headers as HTTP_<UPPER_WITH_UNDERSCORES> with unchanged values")
     ck.rule("C47.response", "default Content-Length/Content-Type/Server only when absent (case-insensitive); headers forwarded with add(); status/reason/body plumbing")
-    fi = ck.func(W, ENV)
+    fi = normalise(ck.func(W, ENV))   # aliases (headers = request.headers) and literal-table loops are looked through
     n = rule_total(ck, fi)
     ck.floor("C47.environ-total", n, 1, "governed operations in environ")
     from ..x_optint import check_truthiness
@@ -511,6 +618,8 @@ MUTANTS = [
     ("response: forwarding loop skips headers already present (first value wins)", _e(replace_stmt(lambda st: isinstance(st, ast.Expr) and "header_obj.add" in _src(st), lambda st: [parse_stmt("if key not in header_obj:\n    header_obj.add(key, value)")]), HR), "C47.response"),
     ("response: body chunks stripped while collecting", _e(replace_expr(lambda n: isinstance(n, ast.Call) and q.dotted(n.func) == "response.append" and "chunk" in _src(n), lambda n: parse_expr("response.append(chunk.strip())")), HR), "C47.response"),
     ("response: chunks joined with a newline", _e(replace_expr(lambda n: isinstance(n, ast.Constant) and n.value == b"", lambda n: ast.Constant(value=b"\n")), HR), "C47.response"),
+    ("seeded C47-adv2: sentinel b'' and 'if not chunk' (an empty chunk ends the body early)", _e(lambda root: _empty_sentinel(root), HR), "C47.response"),
+    ("response: chunk loop stops on a falsy chunk (sentinel still None)", _e(replace_expr(lambda n: isinstance(n, ast.Compare) and _src(n) == "chunk is None", lambda n: parse_expr("not chunk")), HR), "C47.response"),
     ("response: status split at every space (reason truncated, unpack error for 3 words)", _e(replace_expr(lambda n: isinstance(n, ast.Call) and q.call_attr(n) == "split" and "status" in _src(n), lambda n: ast.Call(func=n.func, args=n.args[:1], keywords=[])), HR), "C47.response"),
     ("response: Server default tested against the raw header list", _e(replace_expr(lambda n: isinstance(n, ast.Compare) and "'server'" in _src(n), lambda n: parse_expr("'server' not in headers")), HR), "C47.response"),
 ]
@@ -524,3 +633,16 @@ def _dict_style_headers(root):
             body[i:i + 2] = [parse_stmt("%s = httputil.HTTPHeaders(%s)" % (_src(st.targets[0]), lst))]
             return True
     return False
+
+
+def _empty_sentinel(root):
+    done = 0
+    for node in ast.walk(root):
+        if isinstance(node, ast.FunctionDef) and node.name == "next_chunk":
+            node.body = [parse_stmt("return next(app_response_iter, b'')")]
+            done += 1
+    for node in ast.walk(root):
+        if isinstance(node, ast.If) and _src(node.test) == "chunk is None":
+            node.test = parse_expr("not chunk")
+            done += 1
+    return done == 2
